@@ -291,6 +291,62 @@ func init() {
 		}
 		return nil, false
 	}
+	// url.QueryUnescape / PathUnescape of a symbolic string: uninterpreted, with the one fact
+	// that a string without '%' (and, for queries, '+') is returned unchanged
+	unescape := func(query bool) intrinsic {
+		return func(c *icall) ([]*State, bool) {
+			a := c.str(0)
+			if a.K == SLit {
+				var r string
+				var err error
+				if query {
+					r, err = url.QueryUnescape(a.S)
+				} else {
+					r, err = url.PathUnescape(a.S)
+				}
+				if err != nil {
+					c.setTuple(litStr(""), c.opaqueErr(litStr(err.Error())))
+				} else {
+					c.setTuple(litStr(r), IfaceV{})
+				}
+				return nil, false
+			}
+			name := "url.pathunescape"
+			if query {
+				name = "url.queryunescape"
+			}
+			okv := c.w.applyUF(c.s, name+".ok", []Value{a}, "Bool", "bool")
+			r := c.w.applyUF(c.s, name, []Value{a}, "String", "string")
+			plain := tNot(strContains(a, litStr("%")))
+			if query {
+				plain = tAnd(plain, tNot(strContains(a, litStr("+"))))
+			}
+			c.s.addPC(tImp(plain, tAnd(okv, tEq(r, a.term()))))
+			if query {
+				// without '%' decoding cannot fail, and every '+' becomes a space
+				noPct := tNot(strContains(a, litStr("%")))
+				c.s.addPC(tImp(noPct, okv))
+				c.s.addPC(tImp(tAnd(noPct, strContains(a, litStr("+"))), tAnd(tNot(tEq(r, a.term())), tEq("(str.len "+r+")", "(str.len "+a.term()+")"))))
+			}
+			depth := len(c.s.stack())
+			dest := c.dest
+			errV := c.opaqueErr(litStr("invalid URL escape"))
+			return c.w.branch(c.s, okv,
+				func(st *State) {
+					if dest != nil {
+						st.stack()[depth-1].Env[dest] = TupleV{[]Value{opaqueStr(r), IfaceV{}}}
+					}
+				},
+				func(st *State) {
+					if dest != nil {
+						st.stack()[depth-1].Env[dest] = TupleV{[]Value{litStr(""), errV}}
+					}
+				})
+		}
+	}
+	intrinsics["net/url.QueryUnescape"] = unescape(true)
+	intrinsics["net/url.PathUnescape"] = unescape(false)
+
 }
 
 var _ ssa.Value
